@@ -66,7 +66,7 @@ NOT_APPLICABLE = {
 
 # properties whose check is planned in DESIGN.md but not built yet in this revision
 PENDING = {k: "check not built yet in this revision of /verif (planned, DESIGN.md §4); not claimed until it exists"
-           for k in ["C03", "C04", "C05", "C07", "C08", "C10", "C11", "C12", "C14", "C16",
+           for k in ["C04", "C05", "C07", "C08", "C11", "C12", "C14", "C16",
                      "C17", "C18", "C19", "C20"]}
 
 
@@ -185,4 +185,65 @@ _add(Prop(
           "value; Ord/Eq coincide with numeric order; +, -, *, unary - never return a value outside [MIN, MAX] in "
           "either build, equal the exact result whenever they return in the debug-assertion build (so every "
           "overflowing pair panics) and equal the exact result wrapped mod 2^bits in the release build.",
+))
+
+
+_add(Prop(
+    "C03", "c03_amp", "c03",
+    functions=["Sample::{add_amp, mul_amp, to_signed_sample, to_float_sample, EQUILIBRIUM, IDENTITY} for all 14 formats",
+               "impl<S, const N> Frame for [S; N]: map, zip_map, offset_amp, scale_amp, add_amp, mul_amp, to_signed_frame, "
+               "to_float_frame, from_fn, from_samples (array_from_iter), channels, channels_ref, channels_mut, channel, "
+               "channel_mut, EQUILIBRIUM, CHANNELS", "Channels/ChannelsRef/ChannelsMut::{next, len}",
+               "impl Frame for the 14 bare sample types (mono)"],
+    bounds="samples: every value of every format, every offset/gain whose mathematical result stays in range (general "
+           "mul_amp: f32-companion formats quick, f64-companion formats thorough); frames: S=u8 at N in "
+           "{1,2,3,4,8,31,32} quick and every N in 1..=32 thorough, all 14 formats at N in {1,2}; per-channel "
+           "assertions at a symbolic channel index; loops unwound N+2",
+    outside="frame widths/formats not instantiated (the impl is one const-generic function, but each N is a separate "
+            "verdict); offsets/gains whose result leaves the range; NaN/infinite float samples",
+    assumptions=["mul_amp_general assumes the float product p = float(s)*g lies in [-1, 1)",
+                 "add_amp_general assumes signed(s) + offset is representable in the Signed companion type"],
+    rules=[
+        {"match": r"s_(i32|u32|i48|i64|u48|u64|f64)::mul_amp_general", "tier": "thorough", "timeout": 2400},
+        {"match": r"frame_u8_n(8|31|32)::scale_ops", "tier": "thorough", "timeout": 1200},
+        {"match": r"frame_(i48|i64|u48|u64)_n2::scale_ops", "tier": "thorough", "timeout": 1200},
+        {"match": r"frame_u8_n(5|6|7|9|1\d|2\d|30)::", "tier": "thorough", "timeout": 1200},
+    ],
+    design_ref="DESIGN.md §4 C03",
+    claim="For every value of every sample format the solver shows the offset/scale identities and, against wide-integer "
+          "and bit-level float references, that add_amp/mul_amp are native addition/multiplication on the signed / "
+          "normalised-float conversion converted back (unsigned formats re-centred). For the instantiated frame widths "
+          "every Frame method equals the per-channel sample operation at an arbitrary (symbolic) channel, in channel "
+          "order, and a bare sample behaves as the 1-channel frame.",
+))
+
+
+_C10_REFUSE = [r"\| .*dasp_slice/src/lib\.rs:\d+:\d+ in function dasp_slice::zip_map_in_place"]
+_add(Prop(
+    "C10", "c10_slice", "c10",
+    functions=["dasp_slice::{to_frame_slice, to_frame_slice_mut, from_sample_slice, from_sample_slice_mut, to_sample_slice, "
+               "to_sample_slice_mut, from_frame_slice, from_frame_slice_mut} for [S; N] frames (macro-generated impls of "
+               "frame/fixed_size_array.rs)", "dasp_slice::{to_boxed_frame_slice, from_boxed_sample_slice, "
+               "to_boxed_sample_slice, from_boxed_frame_slice}",
+               "dasp_slice::{equilibrium, map_in_place, zip_map_in_place, write, add_in_place, "
+               "add_in_place_with_amp_per_channel}"],
+    bounds="views: S=i16 at N in {1,2,3,4,8,31,32} (quick) / every N in 1..=32 (thorough), all 14 formats at N=2; slice "
+           "length L symbolic in 0..=3N+1; symbolic (frame, channel) index; boxed: concrete lengths {0, N, 2N, N+1} with "
+           "CBMC's memory-leak check on; in-place ops: [i16;2] frames, two symbolic lengths <= 4",
+    outside="L > 3N+1 (the view code is loop-free in L); boxed lengths other than the four listed; in-place lengths > 4; "
+            "per-channel gains in add_in_place_with_amp_per_channel are picked from {0, 1, 0.5, -0.5}",
+    assumptions=["in-place ops: the only failed checks allowed are inside dasp_slice::zip_map_in_place (its length "
+                 "assert_eq!) - the refusal the property demands; the harness asserts la == lb after every call, so no "
+                 "mismatching call returns, and the mapping closure asserts it never runs on a mismatch",
+                 "boxed harnesses run with --cbmc-args --memory-leak-check"],
+    rules=[
+        {"match": r"::boxed_", "flags": ["-Z", "unstable-options", "--cbmc-args", "--memory-leak-check"]},
+        {"match": r"inplace::(zip_map|write|add|add_with_amp)$", "allow": _C10_REFUSE},
+    ],
+    design_ref="DESIGN.md §4 C10",
+    claim="For the instantiated N and every slice length L <= 3N+1 the solver shows the view succeeds iff N | L, has "
+          "L/N frames at the very same address, frame i channel c aliases sample i*N+c (read and write-through), and "
+          "the inverse view restores pointer and length; boxed conversions keep the allocation, and with CBMC's leak "
+          "check both the success and the failure path free it; the in-place operations equal the element-wise frame "
+          "operation and never return (nor run the mapping closure) on a length mismatch.",
 ))
